@@ -7,6 +7,7 @@ computed: the soundness proofs in `Proofs/Pipe*.lean` use only the edge-local ch
 
   W0  indices in range
   W1  close discipline of a channel, one of
+        N (never)   nobody closes `c`
         A (owner)   one goroutine does every send and close of `c`; nothing on `c` after a close
         B (fan-in)  one closer that passes `wgWait w` before `close c`; every sender still owes
                     its `wgDone w` when it sends (needs W5 for `w`)
@@ -18,11 +19,14 @@ computed: the soundness proofs in `Proofs/Pipe*.lean` use only the edge-local ch
   W3  a lone receive / range: the channel's closer is a static pipeline goroutine of smaller
       rank that closes it on every path to its exit; `wgWait w`: every goroutine owing a
       `wgDone w` is static, of smaller rank
-  W4  from every node there is a way to the exit that only uses edges which are enabled after
-      cancellation (certified by a distance labeling)
+  W4  from every node of a pipeline goroutine there is a way to the exit that only uses edges which
+      are enabled after cancellation (certified by a distance labeling)
   W5  `wgDone w` is reached exactly once on every path of every goroutine that owes it, and the
       initial counter equals the number of goroutines that owe it
   W6  every channel somebody sends on has a receiver
+  W7  every channel of the pipeline instance is closed in the end: a static pipeline goroutine
+      closes it on every path to its exit, or its creator closes it or hands it to the collector
+      on every path
 -/
 import DosModel.Model.PipeSem
 
@@ -34,26 +38,38 @@ def mark (m : List Bool) (i : Nat) : Bool := match m[i]? with | some b => b | no
 
 def Node.succs (nd : Node) : List Pc := nd.edges.map (·.2)
 
-/-- one round: a node is marked if it was, or one of its successors is (unless `cut` at the node) -/
-def backStep (nodes : List Node) (cut : Node → Bool) (m : List Bool) : List Bool :=
-  nodes.zipIdx.map fun x => mark m x.2 || (!cut x.1 && x.1.succs.any (mark m))
+/-- worklist closure: mark everything reachable from `work` under `step` (fuel bounds the pops) -/
+def closeUnder (step : Nat → List Nat) : Nat → List Nat → List Bool → List Bool
+  | 0, _, seen => seen
+  | _ + 1, [], seen => seen
+  | fuel + 1, x :: work, seen =>
+    if mark seen x then closeUnder step fuel work seen
+    else closeUnder step fuel (step x ++ work) (seen.set x true)
 
 def iter {α : Type} (f : α → α) : Nat → α → α
   | 0, a => a
   | n + 1, a => iter f n (f a)
 
+def edgeCount (nodes : List Node) : Nat := nodes.foldl (fun n nd => n + nd.succs.length) 0
+
+def indicesWhere (nodes : List Node) (f : Node → Bool) : List Nat :=
+  nodes.zipIdx.filterMap fun x => if f x.1 then some x.2 else none
+
+/-- predecessors of node `j` whose outgoing paths are not `cut` -/
+def predsOf (nodes : List Node) (cut : Node → Bool) (j : Nat) : List Nat :=
+  nodes.zipIdx.filterMap fun x => if !cut x.1 && x.1.succs.contains j then some x.2 else none
+
 /-- nodes from which a seed node can be reached (paths do not continue through `cut` nodes) -/
 def backClosure (nodes : List Node) (cut : Node → Bool) (seed : Node → Bool) : List Bool :=
-  iter (backStep nodes cut) nodes.length (nodes.map seed)
-
-/-- one round forward: a node is marked if it was, or a marked non-`cut` node has an edge to it -/
-def fwdStep (nodes : List Node) (cut : Node → Bool) (m : List Bool) : List Bool :=
-  (List.range nodes.length).map fun j =>
-    mark m j || nodes.zipIdx.any (fun x => mark m x.2 && !cut x.1 && x.1.succs.contains j)
+  closeUnder (predsOf nodes cut) (nodes.length + edgeCount nodes + 1) (indicesWhere nodes seed)
+    (nodes.map (fun _ => false))
 
 /-- nodes reachable from node 0 along paths that do not continue through `cut` nodes -/
 def fwdClosure (nodes : List Node) (cut : Node → Bool) : List Bool :=
-  iter (fwdStep nodes cut) nodes.length ((List.range nodes.length).map (· == 0))
+  closeUnder (fun i => match nodes[i]? with
+      | some nd => if cut nd then [] else nd.succs
+      | none => [])
+    (nodes.length + edgeCount nodes + 1) [0] (nodes.map (fun _ => false))
 
 /-! ### node classification -/
 
@@ -191,14 +207,78 @@ def discBw (p : Pipeline) (c : Ch) (w : Nat) : Bool :=
        fwdClosedOk gr.nodes (Node.isWait w) m &&
        gr.nodes.zipIdx.all fun x => !x.1.closes c || !mark m x.2) &&
       -- every sender still owes its `wgDone w` when it sends
-      p.gs.all (fun gs => let m := owes gs w
-        gs.nodes.zipIdx.all fun x => !x.1.sendsOn c || mark m x.2) &&
+      p.gs.all (fun gs => !gs.hasSend c || (let m := owes gs w
+        gs.nodes.zipIdx.all fun x => !x.1.sendsOn c || mark m x.2)) &&
       W5w p w
     | none => false
   | _ => false
 
 def discB (p : Pipeline) (c : Ch) : Bool :=
   (List.range p.wgs.length).any (discBw p c)
+
+/-- N: nobody ever closes `c` (then nothing on `c` can panic) -/
+def discN (p : Pipeline) (c : Ch) : Bool := p.gs.all (fun gr => !gr.hasClose c)
+
+/-! #### C: hand-off.  The right to operate on `c` is a token: the creator `g` holds it, a send on
+the hand-off channel `r` passes it to the collector `d`, a close destroys it. -/
+
+def Alt.handsOff (r : Ch) : Alt → Bool
+  | .send r' _ => r' == r
+  | _ => false
+
+def Node.handsOff (r : Ch) : Node → Bool
+  | .sel alts => alts.any (Alt.handsOff r)
+  | _ => false
+
+/-- creator side: may still use or hand off `c` -/
+def ownG (gr : Goroutine) (c r : Ch) : List Bool :=
+  backClosure gr.nodes (fun _ => false) (fun nd => nd.opsOn c || nd.handsOff r)
+
+def ownGOk (gr : Goroutine) (c r : Ch) : Bool :=
+  let m := ownG gr c r
+  backClosedOk gr.nodes (fun nd => nd.opsOn c || nd.handsOff r) m &&
+  gr.nodes.all fun nd => match nd with
+    | .close c' n => c' != c || !mark m n
+    | .sel alts => alts.all fun a => match a with
+      | .send r' n => r' != r || !mark m n
+      | _ => true
+    | _ => true
+
+/-- collector side: holds the token from a receive on `r` until it closes `c` -/
+def ownD (gr : Goroutine) (c r : Ch) : List Bool :=
+  closeUnder (fun i => match gr.nodes[i]? with
+      | some nd => if nd.closes c then [] else nd.succs
+      | none => [])
+    (gr.nodes.length + edgeCount gr.nodes + 1)
+    (gr.nodes.flatMap fun nd => nd.edges.filterMap fun e => if e.1 == Lab.recvOk r then some e.2 else none)
+    (gr.nodes.map (fun _ => false))
+
+def ownDOk (gr : Goroutine) (c r : Ch) : Bool :=
+  let m := ownD gr c r
+  !mark m 0 &&
+  gr.nodes.zipIdx.all fun x =>
+    (!x.1.opsOn c || mark m x.2) &&
+    x.1.edges.all fun e =>
+      !mark m e.2 || (mark m x.2 && !x.1.closes c) || e.1 == Lab.recvOk r
+
+def discCr (p : Pipeline) (c r : Ch) : Bool :=
+  c != r &&
+  match p.gsWhere (fun gr => gr.hasSend r), p.gsWhere (fun gr => gr.hasRecv r) with
+  | [g], [d] =>
+    g != d &&
+    (p.gsWhere (fun gr => gr.hasOps c)).all (fun x => x == g || x == d) &&
+    (match p.gs[g]?, p.gs[d]? with
+     | some gg, some gd => !gg.hasRecv r && !gd.hasSend r && !gg.hasClose r && !gd.hasClose r &&
+         ownGOk gg c r && ownDOk gd c r
+     | _, _ => false) &&
+    p.gs.all (fun gr => !gr.hasClose r)
+  | _, _ => false
+
+def discC (p : Pipeline) (c : Ch) : Bool :=
+  (List.range p.chans.length).any (discCr p c)
+
+/-- W1 for one channel -/
+def W1c (p : Pipeline) (c : Ch) : Bool := discN p c || discA p c || discB p c || discC p c
 
 /-! ### liveness rules -/
 
@@ -234,6 +314,102 @@ def nodeLive (p : Pipeline) (g : Gi) : Node → Bool
   | .wgWait w _ => waitOk p g w
   | _ => true
 
+/-! ### W4: a way out after cancellation
+
+An *escape edge* of a node is an edge that is enabled once context 0 is done and the goroutines
+of smaller rank have exited, whatever the rest of the system does: the context alternative of
+a select; else a timer alternative; the closed branch of a lone receive with W3; the single
+edge of close / wgDone / wgWait / spawn / cancel; any edge of an internal choice. -/
+
+def Alt.isCtx0 : Alt → Bool
+  | .ctx k _ => k == 0
+  | _ => false
+
+def Alt.isTick : Alt → Bool
+  | .tick _ => true
+  | _ => false
+
+def escEdges (p : Pipeline) (g : Gi) : Node → List (Lab × Pc)
+  | .sel alts =>
+    if alts.any Alt.isCtx0 then (alts.filter Alt.isCtx0).flatMap Alt.edges
+    else if alts.any Alt.isTick then (alts.filter Alt.isTick).flatMap Alt.edges
+    else match alts with
+      | [.recv c _ b] => if rangeOk p g c then [(.recvCl c, b)] else []
+      | _ => []
+  | nd => nd.edges
+
+/-- breadth-first layers backwards over escape edges: `dist[i]` = length of the shortest escape
+    path from node `i` to a target, `nodes.length + 1` if there is none -/
+def distLayers (esc : Node → List (Lab × Pc)) (nodes : List Node) :
+    Nat → Nat → List Nat → List Nat → List Nat
+  | 0, _, _, dist => dist
+  | fuel + 1, d, frontier, dist =>
+    if frontier.isEmpty then dist else
+    let next := nodes.zipIdx.filterMap fun x =>
+      if (dist[x.2]?.getD 0) > nodes.length && (esc x.1).any (fun e => frontier.contains e.2)
+      then some x.2 else none
+    distLayers esc nodes fuel (d + 1) next (next.foldl (fun acc i => acc.set i (d + 1)) dist)
+
+def distTo (esc : Node → List (Lab × Pc)) (nodes : List Node) (target : Node → Bool) : List Nat :=
+  let t := indicesWhere nodes target
+  let inf := nodes.length + 1
+  distLayers esc nodes nodes.length 0 t
+    (nodes.zipIdx.map fun x => if t.contains x.2 then 0 else inf)
+
+def distAt (d : List Nat) (i : Nat) : Nat := match d[i]? with | some x => x | none => 0
+
+/-- every node in `scope` that is not a target has an escape edge to a strictly closer node -/
+def distOk (esc : Node → List (Lab × Pc)) (nodes : List Node) (target : Node → Bool)
+    (scope : Nat → Bool) (d : List Nat) : Bool :=
+  nodes.zipIdx.all fun x =>
+    !scope x.2 || target x.1 || (esc x.1).any (fun e => decide (distAt d e.2 < distAt d x.2))
+
+/-- W4 for one pipeline goroutine -/
+def W4g (p : Pipeline) (g : Gi) (gr : Goroutine) : Bool :=
+  distOk (escEdges p g) gr.nodes Node.isExit (fun _ => true)
+    (distTo (escEdges p g) gr.nodes Node.isExit)
+
+/-- the collector `d`, while it holds the right to operate on `c` (received on `r`), can always
+    get to `close c` by escape edges alone (its own timer, the request's context): it does not
+    depend on further input from the peers -/
+def collectorCloses (p : Pipeline) (d : Gi) (gd : Goroutine) (c r : Ch) : Bool :=
+  let own := ownD gd c r
+  -- the collector's own return (shutdown of the node: its context, not the pipeline's) is not in scope
+  distOk (escEdges p d) gd.nodes (fun nd => nd.closes c || nd.isExit) (mark own)
+    (distTo (escEdges p d) gd.nodes (Node.closes c))
+
+/-! ### W7: every channel of the pipeline instance is closed in the end -/
+
+/-- reachable from the entry without having closed `c` or handed it off on `r` -/
+def unresolved (gr : Goroutine) (c r : Ch) : List Bool :=
+  closeUnder (fun i => match gr.nodes[i]? with
+      | some nd => if nd.closes c then [] else
+          nd.edges.filterMap fun e => if e.1 == Lab.send r then none else some e.2
+      | none => [])
+    (gr.nodes.length + edgeCount gr.nodes + 1) [0] (gr.nodes.map (fun _ => false))
+
+def resolvesOk (gr : Goroutine) (c r : Ch) : Bool :=
+  let m := unresolved gr c r
+  mark m 0 &&
+  (gr.nodes.zipIdx.all fun x =>
+    !mark m x.2 || x.1.closes c || x.1.edges.all (fun e => e.1 == Lab.send r || mark m e.2)) &&
+  gr.nodes.zipIdx.all fun x => !x.1.isExit || !mark m x.2
+
+/-- `c` is closed by a static pipeline goroutine on every path, or handed to the collector -/
+def W7c (p : Pipeline) (c : Ch) : Bool :=
+  match p.chans[c]? with
+  | none => false
+  | some ch =>
+    ch.env ||
+    p.gs.any (fun gr => gr.static && !gr.daemon && gr.hasClose c && closesOnAllPaths gr c) ||
+    (List.range p.chans.length).any fun r =>
+      discCr p c r &&
+      match p.gsWhere (fun gr => gr.hasSend r), p.gsWhere (fun gr => gr.hasRecv r) with
+      | [g], [d] => match p.gs[g]?, p.gs[d]? with
+        | some gg, some gd => gg.static && !gg.daemon && resolvesOk gg c r && collectorCloses p d gd c r
+        | _, _ => false
+      | _, _ => false
+
 /-! ### violations (what the per-pipeline theorems compare with the recorded findings) -/
 
 structure Violation where
@@ -252,7 +428,7 @@ def dedup (l : List Violation) : List Violation :=
     exactly one closer, that closer -/
 def w1Violations (p : Pipeline) : List Violation :=
   (List.range p.chans.length).flatMap fun c =>
-    if discA p c || discB p c then [] else
+    if W1c p c then [] else
     -- a fan-in whose only defect is W5 is reported under W5
     if (List.range p.wgs.length).any (fun w => !W5w p w) &&
        (p.gsWhere (fun gr => gr.hasClose c)).length ≤ 1 &&
@@ -269,7 +445,7 @@ def w23Violations (p : Pipeline) : List Violation :=
         | .send c _ => [{ rule := 2, g := x.1.name, c := p.ckey c }]
         | .recv c _ _ => [{ rule := (if alts.length == 1 then 3 else 2), g := x.1.name, c := p.ckey c }]
         | _ => []
-      | .wgWait w _ => [{ rule := 3, g := x.1.name, c := p.wname w }]
+      | .wgWait w _ => if W5w p w then [{ rule := 3, g := x.1.name, c := p.wname w }] else []
       | _ => []
 
 def w5Violations (p : Pipeline) : List Violation :=
@@ -285,12 +461,36 @@ def w6Violations (p : Pipeline) : List Violation :=
     if p.gs.any (fun gr => gr.hasSend c) && !p.gs.any (fun gr => gr.hasRecv c)
     then [{ rule := 6, g := "", c := p.ckey c }] else []
 
+def w4Violations (p : Pipeline) : List Violation :=
+  p.gs.zipIdx.flatMap fun x =>
+    if x.1.daemon || W4g p x.2 x.1 then [] else [{ rule := 4, g := x.1.name, c := "" }]
+
+/-- blamed for an unclosed channel: the collector that does not close what it was handed; else the
+    goroutines that close it somewhere; else its senders -/
+def w7Violations (p : Pipeline) : List Violation :=
+  (List.range p.chans.length).flatMap fun c =>
+    if W7c p c then [] else
+    let collectors := (List.range p.chans.length).flatMap fun r =>
+      if discCr p c r then
+        match p.gsWhere (fun gr => gr.hasSend r), p.gsWhere (fun gr => gr.hasRecv r) with
+        | [g], [d] => match p.gs[g]?, p.gs[d]? with
+          | some gg, some gd => if resolvesOk gg c r && !collectorCloses p d gd c r then [d] else []
+          | _, _ => []
+        | _, _ => []
+      else []
+    if !collectors.isEmpty then collectors.map fun d => { rule := 7, g := p.gkey d, c := p.ckey c } else
+    let closers := p.gsWhere (fun gr => gr.hasClose c && !gr.daemon)
+    let blamed := if closers.isEmpty then p.gsWhere (fun gr => gr.hasSend c && !gr.daemon) else closers
+    if blamed.isEmpty then [{ rule := 7, g := "", c := p.ckey c }]
+    else blamed.map fun g => { rule := 7, g := p.gkey g, c := p.ckey c }
+
 def w0Violations (p : Pipeline) : List Violation :=
   if W0 p then [] else [{ rule := 0, g := "", c := "" }]
 
 /-- everything the rules reject, one entry per (rule, goroutine function, channel) -/
 def violations (p : Pipeline) : List Violation :=
-  dedup (w0Violations p ++ w1Violations p ++ w23Violations p ++ w5Violations p ++ w6Violations p)
+  dedup (w0Violations p ++ w1Violations p ++ w23Violations p ++ w4Violations p ++ w5Violations p ++
+    w6Violations p ++ w7Violations p)
 
 def subsetOf (a b : List Violation) : Bool := a.all (fun v => b.contains v)
 
